@@ -165,6 +165,42 @@ theorem C01_exact_total {ds : Nat → Decl} {g : EG} {U R} (i : Inv ds g U R) (h
     (rebuild (g.parents.size + 2) g).1.find a = (rebuild (g.parents.size + 2) g).1.find b ↔ CC ds U R a.toNat b.toNat :=
   C01_exact i _ (rebuild_total i.wf hr) a b
 
+/-! ### any rebuild strategy -/
+
+/-- a rebuild strategy: any sequence of full or partial (index-driven, incremental) passes over
+any tables in any order -/
+inductive RStep where
+  | full (f : Nat)
+  | some (f : Nat) (sel : Row → Bool)
+
+def RStep.apply (g : EG) : RStep → EG
+  | .full f => rebuildTable g f
+  | .some f sel => rebuildSome g f sel
+
+/-- **Whatever the rebuild strategy** — which tables it visits, in which order, and which rows of
+each it chooses to re-canonicalise (all of them, or only those an index reports as mentioning a
+displaced id) — **the equalities it ends with are exactly the congruence closure of the history,
+provided it ends in a canonical database.**  An incremental strategy can fail to canonicalise a
+row (a stale index: the seeded C01 change), which the canonicity check decides on the result; it
+cannot invent an equality or lose one. -/
+theorem C01_any_strategy {ds : Nat → Decl} {g : EG} {U R} (i : Inv ds g U R) (steps : List RStep)
+    (c : Canonical (steps.foldl RStep.apply g)) (a b : Int) :
+    (steps.foldl RStep.apply g).find a = (steps.foldl RStep.apply g).find b ↔ CC ds U R a.toNat b.toNat := by
+  have key : ∀ (steps : List RStep) (g : EG), Inv ds g U R → Inv ds (steps.foldl RStep.apply g) U R := by
+    intro steps
+    induction steps with
+    | nil => intro g i; exact i
+    | cons st sts ih =>
+      intro g i
+      apply ih
+      cases st with
+      | full f => exact i.rebuildTable f
+      | some f sel => exact i.rebuildSome f sel
+  have i' := key steps g i
+  constructor
+  · exact C01_sound i' a b
+  · intro h; exact (find_eq_iff i'.wf a b).mpr (C01_complete i' c _ _ h)
+
 /-! ### rule heads and top-level actions -/
 
 def NoDelete : Action → Prop
